@@ -40,6 +40,9 @@ func c19Spec(r *rng.R) ([]byte, []string) {
 		props[k] = map[string]interface{}{"type": "string", "description": s, "enum": []interface{}{s, used[(i+1)%n]}, "default": s}
 	}
 	props["big"] = map[string]interface{}{"type": "integer", "maximum": 9007199254740993, "minimum": -9223372036854775808}
+	props["maxi64"] = map[string]interface{}{"type": "integer", "format": "int64", "maximum": json.Number("9223372036854775807"), "minimum": json.Number("-9223372036854775807")}
+	props["maxu64"] = map[string]interface{}{"type": "integer", "format": "uint64", "maximum": json.Number("18446744073709551615"), "default": 5, "maxLength": 3}
+	props["pow63"] = map[string]interface{}{"type": "number", "maximum": json.Number("9223372036854775808"), "minimum": json.Number("-9223372036854775809")}
 	props["flt"] = map[string]interface{}{"type": "number", "maximum": 1e21, "minimum": 0.1, "multipleOf": 1e-7}
 	doc := map[string]interface{}{"swagger": "2.0", "info": info,
 		"paths": map[string]interface{}{"/p": map[string]interface{}{"get": map[string]interface{}{"operationId": "getP", "responses": map[string]interface{}{
